@@ -98,6 +98,8 @@ def group_runs(g, tier):
                 runs.append(dict(kind='tree2', cfg1=c1, cfg2=c2, names=['ascii', 'prefix', 'dotted', 'multi'][k % 4], b=[1, 1, 4096, 8193][k % 4] if q else [1, 2731, 8193, 21846][k % 4],
                                  frac=(0.004 if heavy else 0.008) if q else 0.25, inst='MC_Tree2_q', tspec='Trace_Tree2'))
         return runs
+    if g in ('conc16', 'conc17'):
+        return [dict(kind='conc', prop='C16' if g == 'conc16' else 'C17', tspec='Trace_Lin')]
     if g == 'join':
         return [dict(kind='join', inst='MC_Join_q' if q else 'MC_Join_t', random=3000 if q else 200000, chains=3000 if q else 100000, tspec='Trace_Join')]
     raise ToolError('unknown group ' + g)
@@ -166,6 +168,12 @@ def run_group(g, tier, seed, use_cache=True):
             l2 = ensure_lts(r['inst'], r['inst'] + '_emit')
             s = harness(['tree2', '--lts', l2, '--cfg1', r['cfg1'], '--cfg2', r['cfg2'], '--names', r['names'], '--b', r['b'], '--frac', r['frac'],
                          '--seed', seed * 1000 + i, '--out', out])
+        elif r['kind'] == 'conc':
+            mc = run_mc('MC_Conc', 'MC_Conc', workers=16)
+            if not mc['ok']:
+                raise ToolError('model checking of MC_Conc failed:\n%s' % mc.get('tail', ''))
+            mcs['MC_Conc'] = mc
+            s = harness(['conc', '--prop', r['prop'], '--tier', tier, '--seed', seed, '--out', out, '--threads', 12], timeout=7200)
         elif r['kind'] == 'join':
             mc = run_mc(r['inst'], r['inst'])
             if not mc['ok']:
@@ -222,6 +230,11 @@ def run_group(g, tier, seed, use_cache=True):
                     if len(ops) > 6:
                         break
                     continue
+                if e['ev'] == 'hist':
+                    ops.append({k: e[k] for k in ('cfg', 'init', 'pre_remove', 'progs', 'results', 'schedules', 'bound')})
+                    if len(ops) > 2:
+                        break
+                    continue
                 if e['ev'] in ('join', 'chain'):
                     ops.append({k: e[k] for k in e if k in ('ev', 'base', 'arg', 'steps')} | {'sync': e['sync'].get('path'), 'c': e['sync']['c']})
                     if len(ops) > 5:
@@ -263,6 +276,8 @@ PROPS = {
     'C08': dict(groups=['ovl']),
     'C09': dict(groups=['ovl']),
     'C06': dict(groups=['join']),
+    'C16': dict(groups=['conc16']),
+    'C17': dict(groups=['conc17']),
     'C11': dict(groups=['xfer', 'tree', 'alt', 'ovl']),
     'C14': dict(groups=['handles']),
     'C04': dict(groups=['handles', 'tree', 'ovl']),
@@ -381,6 +396,17 @@ MANIFEST_TEXT = {
                 'for transfers ACROSS instances TLC explores all pairs of well-formed trees of a 3-path universe x all transfers (MC_Tree2, 784 states, 51856 edges) and the harness replays a seeded sample '
                 '(thorough: 25%) of those edges for every ordered pair of configurations (memory, physical, altroot, overlay incl. sources served from a lower layer), observing both filesystems completely.',
                 note=_NOTE, technique='TLA+ two-instance transfer model (VfsTree2/MC_Tree2) + LTS replay on ordered pairs of backends + TLC trace validation (Trace_Tree2)', ref='DESIGN.md 6 C11'),
+    'C16': dict(level='A cooperative scheduler drives real threads through the yield points placed (feature verif-hooks) before every lock acquisition of MemoryFS, so a schedule is a sequence of thread choices; '
+                'stateless DFS explores EVERY interleaving of all 2 x 1 programs over {a, a/b, a/c} x 5 initial maps (quick: seeded 60%/15% sample) and preemption-bounded (2; thorough 3) 2x2, 2x3, 3x1 programs, '
+                'also through an altroot. For every program all sequential call orders are executed on the same code; TLC (Trace_Lin) decides for every distinct history whether some sequential order '
+                'explains results and final state, plus well-formedness, no panic, no deadlock. Write handles are two calls (open, close), as the API makes them.',
+                note='Trusted: TLC; the scheduler (one thread runs between yield points; yield points are outside critical sections); result granularity ok/err + returned values (not error kinds).',
+                technique='schedule exploration at lock granularity (hooks) + measured sequential reference + TLC trace validation (Trace_Lin); TLA+ model Conc for the design-level claim', ref='DESIGN.md 6 C16'),
+    'C17': dict(level='Same scheduler: concurrent create_dir_all on all pairs (and seeded triples/quadruples) of 7 targets of depth 1-4 sharing prefixes of every length, on memory, altroot, physical (yield point at PhysicalFS::create_dir), '
+                'overlays over memory/physical, fresh and with a prefix that was removed earlier (whiteout marker present), altroot over overlay; exhaustive on memory/altroot/physical pairs, preemption bound 1 (quick) / 2 (thorough) on overlays. '
+                'TLC checks on every distinct history: all calls ok, every requested path and ancestor is a directory, tree well-formed, no panic/deadlock.',
+                note='Trusted: TLC; the scheduler. PhysicalFS interleavings are explored at create_dir granularity (the OS is not modelled below the syscall boundary).',
+                technique='schedule exploration (hooks) + TLC trace validation (Trace_Lin)', ref='DESIGN.md 6 C17'),
     'C12': dict(level=_LVL + 'Conjunct errpath: every error of every call and observer names a path of the caller namespace related to the call; pinned classes are part of conjunct class.',
                 note=_NOTE, technique='TLA+ ErrPathOK on every failing call/observer of every trace event', ref='DESIGN.md 6 C12'),
     'C13': dict(level=_LVL + 'Every harness call runs under catch_unwind; panic is an outcome class no trace action accepts.',
